@@ -144,6 +144,9 @@ struct Spec {
 	handle_drop_order: Vec<usize>,
 	disconnect_at: Vec<Option<u64>>,
 	delays: bool,
+	/// control frames from WebSocket peers: (instant, connection, true = ping / false = unsolicited pong) - also while the
+	/// server waits for executing calls after stop()
+	control_frames: Vec<(u64, usize, bool)>,
 }
 
 fn gen_spec(seed: u64) -> Spec {
@@ -168,6 +171,7 @@ fn gen_spec(seed: u64) -> Spec {
 			handle_drop_order: order,
 			disconnect_at: vec![None],
 			delays: r.chance(2, 3),
+			control_frames: if r.chance(1, 2) { vec![(stop_at + r.below(3), 0, r.bool())] } else { vec![] },
 		};
 	}
 	let n_conns = r.usize(4);
@@ -214,6 +218,7 @@ fn gen_spec(seed: u64) -> Spec {
 		second_stop: r.bool(),
 		handle_drop_order: order,
 		delays: r.chance(2, 3),
+		control_frames: if n_conns > 0 { (0..r.usize(3)).map(|_| (r.below(horizon + 10), r.usize(n_conns), r.bool())).collect() } else { vec![] },
 	}
 }
 
@@ -296,8 +301,12 @@ async fn run_spec(spec: &Spec) -> Out {
 		Release(usize),
 		Stop,
 		Disconnect(usize),
+		Control(usize, bool),
 	}
 	let mut timeline: Vec<(u64, Ev)> = Vec::new();
+	for (at, c, ping) in &spec.control_frames {
+		timeline.push((*at, Ev::Control(*c, *ping)));
+	}
 	for (i, c) in spec.calls.iter().enumerate() {
 		timeline.push((c.send_at, Ev::Send(i)));
 		if let Some(r) = c.release_at {
@@ -363,6 +372,16 @@ async fn run_spec(spec: &Spec) -> Out {
 					}
 				}
 				handles[spec.handle_drop_order[1]].take();
+			}
+			Ev::Control(c, ping) => {
+				if let Some(Peer::Ws { sender, closed, .. }) = peers.get_mut(c) {
+					if !*closed {
+						let payload = soketto::data::ByteSlice125::try_from(&b"verif"[..]).expect("short payload");
+						let r = if ping { sender.send_ping(payload).await } else { sender.send_pong(payload).await };
+						let _ = sender.flush().await;
+						out.history.push(format!("t={now}: peer of conn {c} sends a {} frame ({})", if ping { "ping" } else { "pong" }, if r.is_ok() { "ok" } else { "failed" }));
+					}
+				}
 			}
 			Ev::Disconnect(c) => {
 				let mut fr = Vec::new();
